@@ -186,11 +186,11 @@ def correspondence(chk, results, what=("write", "read")):
     return n
 
 
-def gen_workloads(rng, shapes, n, maxrecs=12, pages=(1, 2, 3, 7, 1000), codecs=(0, 1, 2), extreme=0.5, maxlist=3):
+def gen_workloads(rng, shapes, n, maxrecs=12, pages=(1, 2, 3, 7, 1000), codecs=(0, 1, 2), extreme=0.5, maxlist=3, minrecs=0, codec_cycle=False):
     out = []
     for k in range(n):
         sh = shapes[k % len(shapes)]
-        nrec = rng.randrange(0, maxrecs + 1)
+        nrec = rng.randrange(minrecs, maxrecs + 1)
         ops = []
         for _ in range(nrec):
             ops.append(S.gen_value(rng, sh.model_fields(), maxlist=maxlist, extreme=extreme))
@@ -198,7 +198,10 @@ def gen_workloads(rng, shapes, n, maxrecs=12, pages=(1, 2, 3, 7, 1000), codecs=(
                 ops.append("W")
         if rng.random() < 0.8:
             ops.append("W")
-        out.append(Workload(sh, rng.choice(codecs), rng.choice(pages), ops, "random"))
+        codec = rng.choice(codecs)
+        if codec_cycle:          # small samples: every codec gets its share whatever the seed
+            codec = codecs[(k // len(shapes) + k) % len(codecs)]
+        out.append(Workload(sh, codec, rng.choice(pages), ops, "random"))
     return out
 
 
